@@ -32,6 +32,9 @@ def check(ctx):
     specs(ctx, s)
     precedence(ctx, repo)
     result_type(ctx, repo)
+    from .c01 import index_spaces
+
+    index_spaces(ctx, repo, "IX")
 
 
 def _is_kernel(name):
